@@ -53,7 +53,8 @@ def table(name, ety='funcref', t64=None, maximum=True):
 
 
 def glob(name, ty='i32', init=None, mutable=None):
-    d = dict(ty=ty, mutable=z3.Bool(name + '_mut') if mutable is None else z3.BoolVal(mutable), shared=z3.Bool(name + '_shared'))
+    # validator fact: shared globals need the shared-everything-threads proposal, which walrus never enables
+    d = dict(ty=ty, mutable=z3.Bool(name + '_mut') if mutable is None else z3.BoolVal(mutable), shared=z3.BoolVal(False))
     if init is not None:
         d['init'] = init
     return d
@@ -71,6 +72,7 @@ def full_module(variant=0):
         dict(module=S('env2'), name=S('imem'), kind='memory', **mem('imem', maximum=(v != 1))),
         dict(module=S('env'), name=S('iglobal'), kind='global', **glob('iglob', 'i32' if v != 2 else 'i64', mutable=False)),
         dict(module=S('env'), name=S('ifunc2'), kind='func', type=0),
+        dict(module=S('env'), name=S('imut'), kind='global', **glob('imut', 'i64')),          # mutability symbolic
     ]
     if v == 1:
         sp.imports.append(dict(module=S('env'), name=S('iext'), kind='global', **glob('iext', 'externref', mutable=False)))
@@ -109,7 +111,7 @@ def full_module(variant=0):
     if v == 2:
         sp.elements[1]['offset'] = OP('I32Const', value=sym('e1_off', 'i32'))
     if v == 1:
-        sp.elements.append(dict(mode='passive', items=('exprs', 'externref', [OP('RefNull', hty=heap('externref')), OP('GlobalGet', global_index=u32(1))])))
+        sp.elements.append(dict(mode='passive', items=('exprs', 'externref', [OP('RefNull', hty=heap('externref')), OP('GlobalGet', global_index=u32(2))])))
         sp.elements.append(dict(mode='declared', items=('exprs', 'funcref', [OP('RefFunc', function_index=u32(4))])))
     sp.data = [
         dict(mode='active', memory=u32(1), offset=OP(off_ty.upper() + 'Const' if False else ('I64Const' if m0_64 else 'I32Const'), value=sym('d0_off', off_ty)), data=Opaque('bytes:d0')),
